@@ -281,6 +281,39 @@ def gen(ctx):
                             if syn != 'css' and conn == '-' and vi:
                                 continue
                             cases.append((cfg, k + conn + var, ('kw', kind[1], kw, is_fn, listed), 'keyword', fk))
+    # tie only (no oracle: the statement is silent about inexact abbreviations, the theorems are not): fuzzy
+    # abbreviations that exercise the scorer -- a key with a character dropped / doubled / appended, key + the
+    # first letters of a keyword, keyword prefixes and acronyms of dashed keywords after the delimiter
+    t = tables['css']
+    fz = []
+    for k, v in t.items():
+        kind = classify(v)
+        if len(k) > 1:
+            i = rng.randrange(len(k))
+            fz.append(k[:i] + k[i + 1:])
+        fz.append(k + rng.choice('abcdefghilmnoprstuvwxyz'))
+        if kind[0] == 'prop':
+            for ai, alt in enumerate(kind[2]):
+                w = re.match(r'[a-z-]+', alt)
+                if not w:
+                    continue
+                w = w.group(0)
+                acr = ''.join(p[0] for p in w.split('-') if p)
+                if '-' in w:
+                    fz.append(k + ':' + acr)          # acronym of a dashed keyword: the scorer's acronym bonus
+                if ai >= (3 if quick else 12):
+                    continue
+                fz.append(k + acr)
+                if '-' not in w:
+                    fz.append(k + ':' + acr)
+                fz.append(k + ':' + w[:rng.randint(1, max(1, len(w) - 1))])
+                if len(w) > 3:
+                    j = rng.randrange(1, len(w))
+                    fz.append(k + '-' + w[:j] + w[j + 1:])
+    cfgs = [Cfg(tabstop=True), Cfg(options={'stylesheet.fuzzySearchMinScore': 0.3}), Cfg(context='@@property'),
+            Cfg(syntax='stylus', options={'stylesheet.fuzzySearchMinScore': 0.7, 'stylesheet.skipUnmatched': False})]
+    for i, a in enumerate(fz):
+        cases.append((cfgs[0] if quick and i % 3 else cfgs[i % len(cfgs)], a, None, 'fuzzy-tie-only', None))
     # user tables
     n_tab = 6 if quick else 40
     for _ in range(n_tab):
@@ -299,6 +332,8 @@ def gen(ctx):
 
 
 def apply_check(check, cfg, r):
+    if check is None:
+        return None
     if check[0] == 'key':
         return key_oracle(check[1], check[2], cfg, r)
     return keyword_oracle(check[1], check[2], check[3], check[4], cfg, r)
@@ -313,7 +348,8 @@ def run(ctx):
         '@@property}; every dash-free keyword listed by a property snippet (read from the raw snippet text) after `:` and `-` in '
         'listed/lower/UPPER/two alternating cases (all for css, a rotating fifth for the other syntaxes in the quick tier); random user '
         'tables (1-3 overriding keys, 2-6 new keys incl. built-in keys with repeated letters and known score-1.0 collisions) with every '
-        'user key and a sample of built-in keys.  Oracle: raw snippet text vs output (see module docstring).  Tie: output string of the '
+        'user key and a sample of built-in keys; fuzzy abbreviations (character dropped/appended, keyword prefixes and acronyms) '
+        'under 4 configurations for the model tie only.  Oracle: raw snippet text vs output (see module docstring).  Tie: output string of the '
         'Coq model.  Non-trivial: every case; distinct by (configuration, abbreviation).')
     cases = gen(ctx)
     pairs = [(c, s) for c, s, _, _, _ in cases]
@@ -331,7 +367,7 @@ def run(ctx):
             if bad:
                 key = fkey if fkey else 'c06:%s:%s' % (cfg.key(), s)
                 ctx.property_failure(key, 'stylesheet expand(%r) under %s: %s' % (s, cfg.to_json(), bad),
-                                     {'input': s, 'config': cfg.to_json(), 'check': list(check[:1]) + [c for c in check[1:] if not isinstance(c, dict)],
+                                     {'input': s, 'config': cfg.to_json(), 'check': list(check[:1]) + [c for c in check[1:] if not isinstance(c, dict)],  # noqa
                                       'impl': repr(r2)[:300], 'why': bad})
     for (cfg, s, check, tag, fkey), r in list(zip(cases, impl))[-5:]:
         ctx.sample({'input': s, 'config': cfg.to_json(), 'impl': repr(r)[:160]})
